@@ -378,7 +378,14 @@ def setitem(eng, st, base, sl, val, node):
             raise OutOfSubset('masked row/column store of array')
         t = z3.Int('t!s')
 
+        selref = eng.ev(elts[0] if rowsel else elts[1], st)
+        wc = st.heap[selref.oid].meta.get('where_cond1') if isinstance(selref, Ref) else None
+        wn = st.heap[selref.oid].meta.get('where_n') if isinstance(selref, Ref) else None
+
         def hit(ix):
+            if wc is not None:
+                # the index array is the result of np.where(mask): ix is hit iff it is in range and mask[ix] holds
+                return z3.And(ix >= 0, ix < to_z3(wn, INT), truth(wc(ix)))
             if sel.esort == BOOL:
                 return z3.And(ix >= 0, ix < to_z3(sel.n, INT), truth(sel.fn(ix)))
             return z3.Exists([t], z3.And(t >= 0, t < to_z3(sel.n, INT), to_z3(sel.fn(t), INT) == ix))
@@ -446,7 +453,9 @@ def np_where(eng, st, args, kw, node):
     x = z3.Int('x!w')
     widx = z3.Function('widx!%d' % next(core._fresh), INT, INT)
     st.pc.append(z3.ForAll([x], z3.Implies(z3.And(x >= 0, x < n0, truth(r.fn(x))), z3.And(widx(x) >= 0, widx(x) < k, z3.Select(it, widx(x)) == x)), patterns=[widx(x)]))
-    return TupleV((alloc(st, 1, it, (k,), INT, {'where_idx': widx}),))
+    # emptiness form (no Skolem function; patterns inferred from the condition): a position satisfying the condition makes the result non-empty
+    st.pc.append(z3.ForAll([x], z3.Implies(z3.And(x >= 0, x < n0, truth(r.fn(x))), k >= 1)))
+    return TupleV((alloc(st, 1, it, (k,), INT, {'where_idx': widx, 'where_cond1': (lambda q, r=r: r.fn(q)), 'where_n': r.n}),))
 
 
 def _where3(eng, st, c, a, b):
@@ -658,6 +667,12 @@ def np_argsort(eng, st, args, kw, node):
 
 
 def np_sum(eng, st, args, kw, node):
+    v = args[0]
+    if ndim_of(eng, st, v) == 1 and not kw and len(args) == 1:
+        r = as_row(eng, st, v)
+        if r.esort == BOOL:
+            ref = materialise(eng, st, r)
+            return core.cntb(st.heap[ref.oid].term, to_z3(r.n, INT))
     raise OutOfSubset('np.sum (no spec yet for this shape)')
 
 
